@@ -23,7 +23,7 @@ def gen_cases(rnd, tier):
         cases.append(D.gen_chirpseq_case(rnd))
     for i in range(25 * k):
         cases.append(D.gen_toneseq_case(rnd, NS[1:]))
-    for i in range(140 * k):
+    for i in range(120 * k):
         c = D.gen_chirpfn_case(rnd, full and i % 4 == 0)
         if i % 100 == 0:
             c["xcheck"] = rnd.choice(c["bins"])
@@ -40,7 +40,7 @@ def gen_cases(rnd, tier):
         cases.append(c)
     for i in range(30 * k):      # tones under DMs over all decades (mostly everything cropped or nothing)
         cases.append(D.gen_bb_case(rnd, "tone", NS[1:], decades=True))
-    for i in range(110 * k):
+    for i in range(90 * k):
         c = D.gen_bb_case(rnd, "cohdd", [1, 2, 3, 4, 5, 6, 7, 8, 8], nchans=(1, 1, 2, 3))
         c["supplied"] = i % 3 == 0
         c["xcheck"] = i % 60 == 0
@@ -48,7 +48,7 @@ def gen_cases(rnd, tier):
     for i in range(40 * k):
         cases.append(D.gen_bb_case(rnd, "roundtrip", [128, 250, 256], nchans=(1, 2),
                                    span=lambda r, N: r.uniform(0.005, 0.09) * N))
-    for i in range(450 * k):
+    for i in range(350 * k):
         c = D.gen_bb_case(rnd, "crop", NS + [1, 2, 5], decades=i % 2 == 0,
                           span=lambda r, N: r.uniform(0, 1.4) * N)
         cases.append(c)
@@ -61,7 +61,7 @@ def run(chk):
     c06.model_check(chk, [("Neg_Dedisp_pinned.cfg", "CropIsValidTimes")])
     cases = gen_cases(rnd, chk.tier)
     events = D.collect(cases, chk)
-    D.judge(chk, events, cases, "C05", jobs=14, timeout=6000 if chk.tier == "thorough" else 1500)
+    D.judge(chk, events, cases, "C05", jobs=8, timeout=6000 if chk.tier == "thorough" else 1500)
     shown = set()
     for e in events:
         if e["ev"] in ("chirp", "cohdd", "tone", "roundtrip", "crop") and e["ev"] not in shown and e.get("outlen", 1) > 0:
